@@ -60,6 +60,7 @@ type linState struct {
 	Body   string
 	Cas    uint64 // 0 = not known to the checker yet (set by a blind write)
 	X      string // value of the system xattr _x ("" = none)
+	Exp    uint32 // expiry in force (only tracked in the "touch" mode, where every write states one)
 }
 
 // keepX: the xattr a write of a body leaves behind (kept on a live document, gone on resurrection / creation)
@@ -127,6 +128,34 @@ func linStep(state any, input any, output any) (bool, any) {
 			return false, s
 		}
 		return true, linState{Row: true, Exists: true, Body: in.Body, X: s.keepX()}
+	case "SetExp0":
+		// Set with expiry 0: body and "never expires" in one step
+		if !out.OK {
+			return false, s
+		}
+		return true, linState{Row: true, Exists: true, Body: in.Body, X: s.keepX(), Exp: 0}
+	case "TouchGet":
+		// GetAndTouchRaw: returns body + CAS of one version and gives that version the expiry
+		if out.Found != s.Exists {
+			return false, s
+		}
+		if !out.Found {
+			return true, s
+		}
+		if out.Body != s.Body || (s.Cas != 0 && out.Cas != s.Cas) {
+			return false, s
+		}
+		s.Cas = out.Cas
+		s.Exp = uint32(in.Cas) // (the expiry travels in the input's Cas field)
+		return true, s
+	case "GetExp":
+		if out.Found != s.Exists {
+			return false, s
+		}
+		if out.Found && uint32(out.Num) != s.Exp {
+			return false, s
+		}
+		return true, s
 	case "GetX":
 		// GetWithXattrs: body, _x and CAS of one version
 		if s.Exists {
@@ -329,6 +358,29 @@ func runLinPlan(p linPlan) (devs []Deviation, overlapRMW bool, err error) {
 				case "Set":
 					e := ds.Set(op.Key, 0, nil, []byte(op.Body))
 					out = linOut{OK: e == nil, ErrCls: errClass(e)}
+				case "SetExp0":
+					e := ds.Set(op.Key, 0, nil, []byte(op.Body))
+					out = linOut{OK: e == nil, ErrCls: errClass(e)}
+				case "TouchGet":
+					exp := nowSec() + 7200 + uint32(wi*100+oi) // a different expiry for every call
+					in.Cas = uint64(exp)
+					raw, cas, e := ds.GetAndTouchRaw(op.Key, exp)
+					if e == nil {
+						out = linOut{OK: true, Found: true, Body: jsonCanon(string(raw)), Cas: cas}
+					} else if errClass(e) == "missing" {
+						out = linOut{OK: true}
+					} else {
+						out = linOut{ErrCls: errClass(e)}
+					}
+				case "GetExp":
+					exp, e := ds.GetExpiry(ctx, op.Key)
+					if e == nil {
+						out = linOut{OK: true, Found: true, Num: uint64(exp)}
+					} else if errClass(e) == "missing" {
+						out = linOut{OK: true}
+					} else {
+						out = linOut{ErrCls: errClass(e)}
+					}
 				case "SetPE":
 					e := ds.Set(op.Key, 0, &sgbucket.UpsertOptions{PreserveExpiry: true}, []byte(op.Body))
 					out = linOut{OK: e == nil, ErrCls: errClass(e)}
@@ -430,7 +482,7 @@ func runLinPlan(p linPlan) (devs []Deviation, overlapRMW bool, err error) {
 		// real-time overlap of a read-modify-write with another operation on the same key?
 		for i, a := range ops {
 			ka := a.Input.(linIn).K
-			if ka != "Incr" && ka != "Update" && ka != "SubDoc" && ka != "WriteCas" && ka != "UpdateX" {
+			if ka != "Incr" && ka != "Update" && ka != "SubDoc" && ka != "WriteCas" && ka != "UpdateX" && ka != "TouchGet" {
 				continue
 			}
 			for j, b := range ops {
@@ -527,7 +579,7 @@ func runLinPlan(p linPlan) (devs []Deviation, overlapRMW bool, err error) {
 func genLinPlan(rt *rapid.T) linPlan {
 	p := linPlan{Disk: chance(rt, 40, "disk"), Handles: rapid.IntRange(1, 3).Draw(rt, "handles"), Seed: int64(rapid.IntRange(1, 1<<30).Draw(rt, "seed"))}
 	nw := rapid.IntRange(2, 6).Draw(rt, "workers")
-	mode := pick(rt, []string{"mixed", "mixed", "counter", "list", "subdoc", "xlist", "mixedx"}, "mode")
+	mode := pick(rt, []string{"mixed", "mixed", "counter", "list", "subdoc", "xlist", "mixedx", "touch"}, "mode")
 	for wi := 0; wi < nw; wi++ {
 		n := rapid.IntRange(3, 20).Draw(rt, "nops")
 		var ops []linOp
@@ -540,6 +592,10 @@ func genLinPlan(rt *rapid.T) linPlan {
 				op.K, op.Key = pick(rt, []string{"Update", "Update", "Get"}, "k"), "list"
 			case "subdoc":
 				op.K, op.Key = pick(rt, []string{"SubDoc", "SubDoc", "Get", "Update"}, "k"), "doc"
+			case "touch":
+				// reads that also write an expiry, next to writes that clear it: body, CAS and expiry
+				// of one version belong together
+				op.K, op.Key = pick(rt, []string{"TouchGet", "TouchGet", "SetExp0", "SetExp0", "GetExp", "Get"}, "k"), "t"
 			case "xlist":
 				op.K, op.Key = pick(rt, []string{"UpdateX", "UpdateX", "UpdateX", "GetX", "Set", "SetPE", "Update"}, "k"), "xdoc"
 			case "mixedx":
@@ -550,7 +606,7 @@ func genLinPlan(rt *rapid.T) linPlan {
 				op.K = pick(rt, []string{"Get", "Get", "Set", "SetPE", "Add", "Delete", "WriteCas", "WriteCas", "Remove", "Update", "SubDoc"}, "k")
 			}
 			switch op.K {
-			case "Set", "SetPE", "Add", "WriteCas":
+			case "Set", "SetPE", "SetExp0", "Add", "WriteCas":
 				op.Body = fmt.Sprintf(`{"l":["s%d.%d"]}`, wi, i)
 				op.Use = pick(rt, []string{"seen", "seen", "zero"}, "use")
 			}
